@@ -83,7 +83,11 @@ func cmdSelftest(id string, verbose bool) int {
 		}
 		var unexpected []string
 		for _, n := range failedNames {
-			if !known[strings.SplitN(n, "[", 2)[0]] {
+			nm := n
+			if i := strings.LastIndex(nm, "["); i > 0 {
+				nm = nm[:i]
+			}
+			if !known[nm] {
 				unexpected = append(unexpected, n)
 			}
 		}
